@@ -93,3 +93,19 @@ Example C33_ex_web :
     = Routed (WebObject B"www.example.com" B"x") /\
   route B"s3.localhost" B"s3-website.localhost" B"bucket.s3.localhost" B"/a//b" B"GET" = Redirect B"/bucket/a/b".
 Proof. vm_compute. repeat split. Qed.
+(* a key that starts with the bucket's own name is still just a key; a domain that merely ends with the endpoint
+   string (no dot boundary) is a custom domain: read-only *)
+Example C33_ex_self_named_key :
+  route B"s3.localhost" B"s3-website.localhost" B"photos.s3.localhost" B"/photos/2024/a.jpg" B"PUT"
+    = Routed (ApiObject B"photos" B"photos/2024/a.jpg") /\
+  route B"s3.localhost" B"s3-website.localhost" B"s3.localhost" B"/photos/photos/2024/a.jpg" B"PUT"
+    = Routed (ApiObject B"photos" B"photos/2024/a.jpg") /\
+  route B"s3.localhost" B"s3-website.localhost" B"photos.s3.localhost" B"/photos" B"PUT"
+    = Routed (ApiObject B"photos" B"photos").
+Proof. vm_compute. repeat split. Qed.
+Example C33_ex_lookalike_domain :
+  route B"s3.localhost" B"s3-website.localhost" B"assets3.localhost" B"/photos/a.jpg" B"PUT" = MethodNotAllowed /\
+  route B"s3.localhost" B"s3-website.localhost" B"assets3.localhost" B"/photos/a.jpg" B"GET"
+    = Routed (WebObject B"assets3.localhost" B"photos/a.jpg") /\
+  route B"s3.localhost" B"s3-website.localhost" B"xs3-website.localhost" B"/x" B"DELETE" = MethodNotAllowed.
+Proof. vm_compute. repeat split. Qed.
